@@ -211,6 +211,7 @@ func checkCmd(w *world, prop, tier string, seed int, opts *runOpts, expectMode b
 	var solverMs int64
 	paths := 0
 	vacuous := 0
+	skipped := 0
 	for _, j := range jobs {
 		if j.c.Flags["assumed"] {
 			assumedContracts = append(assumedContracts, j.c.Key())
@@ -220,6 +221,10 @@ func checkCmd(w *world, prop, tier string, seed int, opts *runOpts, expectMode b
 			label := j.c.PkgPath[strings.LastIndex(j.c.PkgPath, "/")+1:] + "." + j.c.Target
 			if r.Variant != "" {
 				label = r.Variant + ":" + label
+			}
+			if r.Skipped != "" {
+				skipped++
+				continue
 			}
 			fns = append(fns, fmt.Sprintf("%s [%s]", label, r.Mode))
 			if r.Err != "" {
@@ -388,6 +393,7 @@ func checkCmd(w *world, prop, tier string, seed int, opts *runOpts, expectMode b
 			"known_finding_obligations":  knownHits,
 			"not_generated":              append(notGen, missing...),
 			"vacuous_preconditions":      vacuous,
+			"variant_methods_not_offered": skipped,
 			"expected_keys":              len(counts),
 			"contract_mirror_notes":      w.mirrorMsg,
 			"bounded":                    []string{},
